@@ -44,6 +44,9 @@ def extra_programs(ctx):
                  "variants": [{"name": "S", "shape": "named", "fields": fields, "attrs": {}}, {"name": "U", "shape": "unit", "fields": [], "attrs": {}}]}
         if i % 6 == 4 and len(ps) > 1:
             g["attrs"]["concrete"] = [{"name": ps[-1], "ty": P("i32")}]
+        if i % 6 == 1 and len(ps) > 1:       # two parameters made concrete, in ONE list or in SEPARATE #[ts(..)] attributes
+            g["attrs"]["concrete"] = [{"name": ps[0], "ty": P("i32")}, {"name": ps[-1], "ty": P("String")}]
+            g["attrs"]["concrete_split"] = (i % 12 == 1)
         if kind == "struct" and i % 3 == 0 and not g["attrs"].get("concrete") and not any(f["attrs"] for f in fields):
             g["via_macro"] = True           # field types as `$t:ty` macro fragments
         items = [leaf, inner, g]
@@ -52,8 +55,8 @@ def extra_programs(ctx):
         probes = []
         for k in range(3):
             args = [rng.choice(ARGS + [N(leaf["name"]), N(inner["name"], P("bool"))]) for _ in ps]
-            if g["attrs"].get("concrete"):
-                args[-1] = P("i32")
+            for cc in g["attrs"].get("concrete") or []:
+                args[ps.index(cc["name"])] = cc["ty"]
             t = N(g["name"], *args)
             probes.append({"ty": t, "values": [gen.val(t, imap), gen.val(t, imap)]})
         probes.append({"ty": N(leaf["name"]), "values": []})
